@@ -84,7 +84,7 @@ func H_C09_exec(v *V) {
 		}
 	}
 	// valid vectors
-	path := v.Choice(3) // 0: add, 1: add sub, 2: rm
+	path := v.Choice(4) // 0: add, 1: add sub, 2: rm, 3: rm without remaining arguments
 	var argv []string
 	var wantID string
 	switch path {
@@ -96,6 +96,9 @@ func H_C09_exec(v *V) {
 		wantID = "sub"
 	case 2:
 		argv = []string{"rm", "-r", "a", "w1"}
+		wantID = "rm"
+	case 3:
+		argv = []string{"rm", "-r", "b"}
 		wantID = "rm"
 	}
 	// optional single fault at a symbolic position
@@ -123,7 +126,7 @@ func H_C09_exec(v *V) {
 		v.Assume(!refIsDecimal(F) && !refOptionSyntax(F) && F[0] != '"')
 		argv = []string{"-g", "add", "-y", "-n", F, "w1"}
 	case 3: // missing required option
-		if path == 2 {
+		if path >= 2 {
 			v.Assume(false)
 		}
 		var n []string
@@ -134,7 +137,7 @@ func H_C09_exec(v *V) {
 		}
 		argv = n
 	case 4: // value outside choices
-		if path != 2 {
+		if path < 2 {
 			v.Assume(false)
 		}
 		v.Assume(F != "a" && F != "b" && !refOptionSyntax(F) && !(len(F) > 0 && F[0] == '"'))
@@ -187,6 +190,9 @@ func H_C09_exec(v *V) {
 	want := []string{"w1"}
 	if path == 1 {
 		want = []string{"w1", "w2"}
+	}
+	if path == 3 {
+		want = []string{}
 	}
 	v.Assert(v.EqStrs(log.args[0], want), "the command's arguments are the unconsumed tokens")
 }
